@@ -246,8 +246,8 @@ def rule_qm(ctx):
 
 RULES = [
     ("QM-INV", rule_qm, 25),
-    ("GRAMMAR", lambda ctx: (rule_grammar(ctx), rule_segments(ctx), rule_qloop(ctx)), 23),
-    ("DECODE-ALL", lambda ctx: None, 7),
+    ("GRAMMAR", lambda ctx: (rule_grammar(ctx), rule_segments(ctx), rule_qloop(ctx)), 13),
+    ("DECODE-ALL", lambda ctx: None, 4),
     ("ALPHABET", rule_alphabet, 2),
     ("REJECT-COMPLETE", rule_reject_complete, 20),
     ("BUILD-FRAME", rule_build_frame, 4),
